@@ -54,6 +54,26 @@ fn hash_of(s: &SharedString) -> u64 {
     h.finish()
 }
 
+/// What each content hashed to the first time this process held it (outside any explored
+/// execution): equal contents hash equal whenever their handles lived, not only while they
+/// share a buffer.
+fn reference_hashes() -> &'static [u64; 2] {
+    static R: std::sync::OnceLock<[u64; 2]> = std::sync::OnceLock::new();
+    R.get_or_init(|| {
+        let mut out = [0u64; 2];
+        for c in 0..2u8 {
+            // a decoy allocation of the same size class first, kept alive, so that the buffers of
+            // later executions do not all land on this one's address
+            let decoy = content(c);
+            let h = SharedString::new(content(c));
+            out[c as usize] = hash_of(&h);
+            drop(h);
+            std::mem::forget(decoy);
+        }
+        out
+    })
+}
+
 fn run_program(tid: usize, prog: Vec<SOp>, mut handles: Vec<(u8, SharedString)>, table: Table) -> ThreadEnd {
     let mut failures = Vec::new();
     let publish = |handles: &Vec<(u8, SharedString)>| {
@@ -64,6 +84,9 @@ fn run_program(tid: usize, prog: Vec<SOp>, mut handles: Vec<(u8, SharedString)>,
         for (c, h) in handles {
             if h.data() != content(*c).as_slice() {
                 failures.push(format!("thread {}: handle created from content {} exposes other bytes", tid, c));
+            }
+            if hash_of(h) != reference_hashes()[*c as usize] {
+                failures.push("a handle hashes differently from an earlier handle of the same contents (one that was released before this one was created)".to_owned());
             }
         }
         for i in 0..handles.len() {
@@ -177,6 +200,7 @@ pub struct Obs18 {
 /// Runs one configuration under one forced schedule prefix (default
 /// continuation) and judges it. Returns the execution and the failures.
 pub fn run_config_once(cfg: &Config18, prefix: &[usize]) -> (Execution<ThreadEnd>, Obs18) {
+    let _ = reference_hashes();
     let mut make = maker(cfg.clone());
     let (bodies, mut at_cut) = make();
     let ex = sched::run_once(bodies, prefix, &mut *at_cut, sched::WATCHDOG);
@@ -353,6 +377,7 @@ pub struct Out18 {
 
 /// Explores one configuration completely (or up to the preemption bound).
 pub fn explore_config(cfg: &Config18, bound: Option<usize>, max_exec: u64, out: &mut Out18) {
+    let _ = reference_hashes();
     let mut make = maker(cfg.clone());
     let mut local: Vec<(Vec<usize>, Obs18)> = Vec::new();
     let stats = {
